@@ -351,6 +351,7 @@ class Interp:
         self.stop_at_calls: set = set()            # dotted callee names at which a top-level path is cut (counts as a return)
         self._leaf_cache = {}
         self.finite_domain = False                 # the property is about finite samples: nan_to_num is the identity, isfinite(...) holds
+        self.broadcasts = []                       # (values, shape) of every broadcast_to seen: the values pass through unchanged, the shape is kept for shape clauses
         self.tag_draws = False                     # number the random draws so that two calls with equal arguments stay two values
         self._draws = 0
         self.domain_pred = None                    # optional callable(callee, [arg values]) -> True / False / None: a predicate decided by the property's domain
@@ -1781,7 +1782,9 @@ class Interp:
             if nm == "gv":
                 return mk_attr(Form.sym("gv"), ".".join(parts[3:])) if len(parts) > 3 else Form.sym("gv")
         if dotted in _BUILTIN_TYPES or dotted in ("numpy.ndarray", "numpy.float64", "numpy.uint8", "numpy.integer", "numpy.floating", "numpy.number", "numpy.generic",
-                                                  "numpy.bool_", "numpy.str_", "numpy.complexfloating", "numpy.signedinteger", "numpy.unsignedinteger", "numpy.inexact") \
+                                                  "numpy.bool_", "numpy.str_", "numpy.complexfloating", "numpy.signedinteger", "numpy.unsignedinteger", "numpy.inexact",
+                                                  "numpy.int8", "numpy.int16", "numpy.int32", "numpy.int64", "numpy.uint16", "numpy.uint32", "numpy.uint64", "numpy.intp",
+                                                  "numpy.float16", "numpy.float32", "numpy.complex64", "numpy.complex128") \
                 or (dotted.startswith("numbers.") and dotted.count(".") == 1) or dotted.startswith("collections.abc."):
             return ClassRef(dotted)
         return Form.atom(("c", dotted))
@@ -2407,6 +2410,17 @@ class Interp:
                     if not r_.items[0].v:
                         out_ = mk_fn("setitem", [out_, Form.num(i_), args[2]])
                 return out_
+        if name == "numpy.issubdtype" and len(args) == 2 and not kwargs and all(isinstance(a_, ClassRef) for a_ in args) and args[1].name in ("numpy.number", "numpy.integer", "numpy.floating", "numpy.complexfloating", "numpy.inexact", "numpy.generic"):
+            # numpy's scalar hierarchy for the type objects a dtype argument is written with
+            fam_ = {"int": "integer", "float": "floating", "complex": "complexfloating", "bool": "bool", "str": "str", "numpy.bool_": "bool", "numpy.str_": "str", "object": "object"}.get(args[0].name)
+            short_ = args[0].name.split(".")[-1]
+            if fam_ is None and args[0].name.startswith("numpy."):
+                fam_ = "integer" if short_.startswith(("int", "uint")) or short_ in ("integer", "signedinteger", "unsignedinteger") else \
+                       "floating" if short_.startswith("float") else "complexfloating" if short_.startswith("complex") else None
+            if fam_ is not None:
+                sup_ = {"integer": ("integer", "number", "generic"), "floating": ("floating", "inexact", "number", "generic"), "complexfloating": ("complexfloating", "inexact", "number", "generic"),
+                        "bool": ("generic",), "str": ("generic",), "object": ()}[fam_]
+                return Const(args[1].name.split(".")[-1] in sup_)
         if name == "numpy.isin" and len(args) == 2 and not kwargs and isinstance(args[0], Form) and isinstance(args[1], (TupleV, VecV)) and 1 <= len(args[1].items) <= 6 \
                 and all(isinstance(i_, Form) and i_.rational() is not None for i_ in args[1].items):
             # membership in a short literal set is the disjunction of the equalities
@@ -2416,6 +2430,7 @@ class Interp:
                 out_ = mk_fn("bor", [out_, e_])
             return out_
         if name == "numpy.broadcast_to" and len(args) == 2 and not kwargs and isinstance(args[0], Form):
+            self.broadcasts.append((args[0], args[1]))
             return args[0]          # the same values seen with another shape (what arithmetic does with the operand anyway)
         if name == "re.sub" and len(args) == 3 and not kwargs and all(isinstance(a_, Const) and isinstance(a_.v, str) for a_ in args):
             import re as _re
@@ -3096,7 +3111,9 @@ def _mk_fstr(parts):
 
 _TOWER = {"int": ("int", "numbers.Number", "numbers.Complex", "numbers.Real", "numbers.Rational", "numbers.Integral"),
           "float": ("float", "numbers.Number", "numbers.Complex", "numbers.Real"),
-          "complex": ("complex", "numbers.Number", "numbers.Complex")}
+          "complex": ("complex", "numbers.Number", "numbers.Complex"),
+          # a numpy integer scalar (np.int64(3), np.argmax(..)): an Integral, NOT a python int
+          "numpy.integer": ("numpy.integer", "numpy.number", "numpy.generic", "numbers.Number", "numbers.Complex", "numbers.Real", "numbers.Rational", "numbers.Integral")}
 
 
 class _SuperV:
